@@ -1,3 +1,5 @@
+import os
+
 from trashcli.fs import RealExists, RealEntriesIfDirExists
 from trashcli.lib.dir_reader import DirReader
 
@@ -6,4 +8,7 @@ class FileSystemDirReader(DirReader,
                           RealEntriesIfDirExists,
                           RealExists,
                           ):
-    pass
+    def exists(self, path):  # type: (str) -> bool
+        # lexists: a .trashinfo that is a dangling symlink still is the
+        # .trashinfo of its payload, the payload is not an orphan
+        return os.path.lexists(path)
